@@ -1,6 +1,7 @@
 import SJ.Drv.C18
 import SJ.Drv.C01
 import SJ.Drv.C06
+import SJ.Drv.C06Via
 import SJ.Drv.C10
 import SJ.Drv.C12
 import SJ.Drv.C13
@@ -28,6 +29,7 @@ def allHandlers : List (String × Handler) :=
   List.flatten [
     C18.handlers,
     C01.handlers,
+    C06Via.handlers,
     C06.handlers,
     C10.handlers,
     C12.handlers,
